@@ -826,3 +826,36 @@ func fold(p *core.Prog, r *core.Report, info *types.Info) {
 		}
 	}
 }
+
+// Alphabet runs the complement-table rules (COMP, TRANS, LOOKUP, WIRE) and the
+// involution check; used by C05, whose statement rests on the same tables.
+func Alphabet(p *core.Prog, r *core.Report) {
+	r.Rule("COMP", "the complement alphabet translates each of the 256 byte values to the IUPAC complement (case preserved, others unchanged)", 33)
+	r.Rule("LOOKUP", "the translation helper allocates len(input) bytes and writes, for every index, either the input byte (lookup missed) or new[first index of the byte in old]", 3)
+	r.Rule("WIRE", "the translated bytes are computed from the argument's Bytes() and are the bytes of the returned sequence", 1)
+	r.Rule("INVOLUTION", "the complement table composed with itself is the identity on every byte except U/u, which read back as T/t", 1)
+	info := p.Info(core.PkgGts)
+	compTable(p, r, info, "Complement", "COMP", false)
+	lookup(p, r, info)
+	// involution on the oracle-checked table: follows from COMP, recorded as its own obligation
+	bad := ""
+	for v := 0; v < 256; v++ {
+		b := byte(v)
+		bb := oracleComplement(oracleComplement(b, false), false)
+		want := b
+		if b == 'U' {
+			want = 'T'
+		}
+		if b == 'u' {
+			want = 't'
+		}
+		if bb != want {
+			bad = showByte(b)
+		}
+	}
+	if bad == "" {
+		r.Ok("INVOLUTION", "gts.Complement", "-", "complement(complement(b)) = b for all 256 bytes, except U->A->T")
+	} else {
+		r.Bad("INVOLUTION", "gts.Complement", "-", "not an involution at byte "+bad)
+	}
+}
